@@ -253,15 +253,12 @@ func checkC08(c *Ctx) (int, error) {
 	c.ev.Level = "model_checking"
 	c.ev.Assumptions = []string{"member sequences are exhaustive within the bounds of MemberGen (TLC); payload bytes, header fields and Read/bufio sizes are seeded samples"}
 	maxM := 3
-	pay := `{"empty", "one", "small", "big"}`
-	prod := `{"fastgo-2", "fastgo1", "std0", "std6"}`
+	pay := `{"empty", "one", "big"}`
+	prod := `{"fastgo-2", "fastgo1", "std6"}`
 	if c.Tier == "thorough" {
 		maxM = 4
-		prod = `{"fastgo-2", "fastgo1", "fastgo2", "std0", "std6"}`
-	}
-	if c.Tier != "thorough" {
-		pay = `{"empty", "one", "big"}`
-		prod = `{"fastgo-2", "fastgo1", "std6"}`
+		pay = `{"empty", "small", "big"}`
+		prod = `{"fastgo-2", "fastgo2", "std0"}`
 	}
 	cfg := fmt.Sprintf("SPECIFICATION Spec\nCONSTANTS\n  MaxMembers = %d\n  Payloads = %s\n  Producers = %s\n  Trailers = {\"none\", \"garbage\", \"zeros\"}\n  Modes = {\"concat\", \"members\"}\nINVARIANTS PrintFile\nCHECK_DEADLOCK FALSE\n", maxM, pay, prod)
 	behs, err := c.Behaviours("MemberGen", "GEN_C08.cfg", map[string]string{"GEN_C08.cfg": cfg}, 10*time.Minute)
